@@ -285,3 +285,108 @@ theorem prefix_last_tie (l : List (ℝ × ℝ)) (hs : l.Pairwise (fun a b => a.1
 /-- mono_of_succ: a sequence that never decreases from one index to the next is monotone. -/
 theorem mono_of_succ (a : ℕ → ℝ) (h : ∀ i, a i ≤ a (i + 1)) : ∀ i j, i ≤ j → a i ≤ a j :=
   fun _ _ hij => monotone_nat_of_le_succ h hij
+
+
+/-! ## prefix sums against a DOWNWARD-CLOSED score predicate, and order-independence of filtered totals
+    (pyvc/posarr.py: lemma_prefix, lemma_perm_filter_sum -- the body of math_utils.weighted_median);
+    proved by an independent session working only from the statements -/
+
+/-- prefix_in: if the score at position k satisfies the downward closed predicate P, the whole prefix up to and
+    including k satisfies it, so the running total up to k is at most the total weight of the entries satisfying P. -/
+theorem prefix_in (l : List (ℝ × ℝ)) (hs : l.Pairwise (fun a b => a.1 ≤ b.1)) (hw : ∀ p ∈ l, 0 ≤ p.2)
+    (P : ℝ → Bool) (hP : ∀ a b : ℝ, b ≤ a → P a = true → P b = true)
+    (k : ℕ) (hk : k < l.length) (h : P (l[k]).1 = true) :
+    ((l.take (k + 1)).map Prod.snd).sum ≤ ((l.filter (fun p => P p.1)).map Prod.snd).sum := by
+  induction l generalizing k with
+  | nil => simp at hk
+  | cons a t ih =>
+    rw [List.pairwise_cons] at hs
+    obtain ⟨ha, hs'⟩ := hs
+    have hwt : ∀ p ∈ t, 0 ≤ p.2 := fun p hp => hw p (List.mem_cons_of_mem _ hp)
+    have hfn := filter_snd_sum_nonneg t hwt (fun p => P p.1)
+    cases k with
+    | zero =>
+      simp only [List.getElem_cons_zero] at h
+      have hf : (a :: t).filter (fun p => P p.1) = a :: t.filter (fun p => P p.1) := by
+        rw [List.filter_cons_of_pos]; simpa using h
+      rw [hf]
+      simpa using hfn
+    | succ k =>
+      simp only [List.getElem_cons_succ] at h
+      have hk' : k < t.length := by simpa using hk
+      have hPa : P a.1 = true := hP _ _ (ha _ (List.getElem_mem hk')) h
+      have hf : (a :: t).filter (fun p => P p.1) = a :: t.filter (fun p => P p.1) := by
+        rw [List.filter_cons_of_pos]; simpa using hPa
+      rw [hf, List.take_succ_cons]
+      simp only [List.map_cons, List.sum_cons]
+      have := ih hs' hwt k hk' h
+      linarith
+
+/-- prefix_out: if the score at position k does NOT satisfy the downward closed predicate P, every entry satisfying P
+    lies strictly before k, so their total weight is at most the running total of the first k entries. -/
+theorem prefix_out (l : List (ℝ × ℝ)) (hs : l.Pairwise (fun a b => a.1 ≤ b.1)) (hw : ∀ p ∈ l, 0 ≤ p.2)
+    (P : ℝ → Bool) (hP : ∀ a b : ℝ, b ≤ a → P a = true → P b = true)
+    (k : ℕ) (hk : k < l.length) (h : P (l[k]).1 = false) :
+    ((l.filter (fun p => P p.1)).map Prod.snd).sum ≤ ((l.take k).map Prod.snd).sum := by
+  induction l generalizing k with
+  | nil => simp at hk
+  | cons a t ih =>
+    rw [List.pairwise_cons] at hs
+    obtain ⟨ha, hs'⟩ := hs
+    have hwt : ∀ p ∈ t, 0 ≤ p.2 := fun p hp => hw p (List.mem_cons_of_mem _ hp)
+    have hwa : 0 ≤ a.2 := hw a List.mem_cons_self
+    cases k with
+    | zero =>
+      simp only [List.getElem_cons_zero] at h
+      have hft : t.filter (fun p => P p.1) = [] := by
+        rw [List.filter_eq_nil_iff]
+        intro p hp hpx
+        have hpx' : P p.1 = true := by simpa using hpx
+        have h1 : P a.1 = true := hP _ _ (ha p hp) hpx'
+        rw [h] at h1
+        exact Bool.false_ne_true h1
+      have hf : (a :: t).filter (fun p => P p.1) = [] := by
+        rw [List.filter_cons_of_neg, hft]; simpa using h
+      rw [hf]
+      simp
+    | succ k =>
+      simp only [List.getElem_cons_succ] at h
+      have hk' : k < t.length := by simpa using hk
+      have hih := ih hs' hwt k hk' h
+      rw [List.take_succ_cons]
+      simp only [List.map_cons, List.sum_cons]
+      cases hPa : P a.1 with
+      | true =>
+        have hf : (a :: t).filter (fun p => P p.1) = a :: t.filter (fun p => P p.1) := by
+          rw [List.filter_cons_of_pos]; simpa using hPa
+        rw [hf]
+        simp only [List.map_cons, List.sum_cons]
+        linarith
+      | false =>
+        have hf : (a :: t).filter (fun p => P p.1) = t.filter (fun p => P p.1) := by
+          rw [List.filter_cons_of_neg]; simpa using hPa
+        rw [hf]
+        linarith
+
+/-- perm_filter_sum: the total weight of the entries satisfying a predicate does not depend on the order of the list. -/
+theorem perm_filter_sum (l l' : List (ℝ × ℝ)) (h : l.Perm l') (q : ℝ × ℝ → Bool) :
+    ((l.filter q).map Prod.snd).sum = ((l'.filter q).map Prod.snd).sum := by
+  exact ((h.filter q).map Prod.snd).sum_eq
+
+/-- cumsum_total: the running total over the whole list is the total. -/
+theorem cumsum_total (l : List (ℝ × ℝ)) :
+    ((l.take l.length).map Prod.snd).sum = (l.map Prod.snd).sum := by
+  rw [List.take_length]
+
+/-- sum_mono_dom: a sum of non-negative terms over a smaller row set is at most the sum over a larger one
+    (pyvc.sums.lemma_sum_mono_dom). -/
+theorem sum_mono_dom (s : Finset U) (A B : U → Prop) [DecidablePred A] [DecidablePred B] (f : U → ℝ)
+    (hAB : ∀ u ∈ s, A u → B u) (hf : ∀ u ∈ s, B u → 0 ≤ f u) :
+    ∑ u ∈ s.filter A, f u ≤ ∑ u ∈ s.filter B, f u := by
+  apply Finset.sum_le_sum_of_subset_of_nonneg
+  · intro u hu
+    rw [Finset.mem_filter] at hu ⊢
+    exact ⟨hu.1, hAB u hu.1 hu.2⟩
+  · intro u hu _
+    rw [Finset.mem_filter] at hu
+    exact hf u hu.1 hu.2
